@@ -11,6 +11,10 @@ Rules
   R8.3  delegation: series.<x>_ref -> chart_data.<x>_ref(series) -> workbook_writer.<x>_ref(series) keep the name; each chart
         data class builds the workbook writer of its own kind; replace_data writes the workbook and the XML from the same
         chart data object
+  R8.6  the date system of the cached serials is the date system of the embedded workbook (new charts: 1900 on both sides;
+        replace_data: known finding, the workbook is always 1900 while the cache follows c:date1904)
+  R8.7  a date label is reduced the same way for the cache and for the cell (known finding: the cache drops the time of day)
+  R8.5  per chart type, the chart writer and the series rewriter use the same series-writer class
   R8.4  date serials: epochs and the 1900 leap-year compatibility rule equal the standard's definition (constants folded,
         dates computed on constants)
   (column letters beyond Z (_column_reference), cell values as stored by XlsxWriter: not decided)
@@ -322,6 +326,19 @@ def date_system_rule(ctx, prog, rid):
                 if isinstance(k, int) and len(inc) == 1:
                     first = k + 1 if isinstance(c.ops[0], ast.Gt) else k
                     adj = (first, prog.const(inc[0].value, f.module))
+    adj_date = None
+    if adj is None and epochs is not None:
+        # form: `if not date_1904 and <date expr> > date(1900, 3, 1): n += 1`
+        for n in ast.walk(f.node):
+            if isinstance(n, ast.If) and isinstance(n.test, ast.BoolOp) and isinstance(n.test.op, ast.And) and len(n.test.values) == 2:
+                g, c = n.test.values
+                if isinstance(g, ast.UnaryOp) and isinstance(g.op, ast.Not) and dotted(g.operand) == flag and isinstance(c, ast.Compare) \
+                        and isinstance(c.ops[0], (ast.Gt, ast.GtE)) and as_date(c.comparators[0]) is not None:
+                    inc = [x for x in n.body if isinstance(x, ast.AugAssign) and isinstance(x.op, ast.Add)]
+                    if len(inc) == 1:
+                        d0 = as_date(c.comparators[0])
+                        first_date = d0 + datetime.timedelta(days=1) if isinstance(c.ops[0], ast.Gt) else d0
+                        adj = ((first_date - epochs[False]).days, prog.const(inc[0].value, f.module))
     days = any(isinstance(n, ast.Attribute) and n.attr == "days" for n in ast.walk(f.node))
     key = "Category._excel_date_number"
     if epochs is None or adj is None or not days:
@@ -341,6 +358,72 @@ def date_system_rule(ctx, prog, rid):
         ctx.violation(rid, key, "; ".join(probs), file=f.file, line=f.line)
     else:
         ctx.ok(rid, key, sample={"1904": "serial 0 = 1904-01-01", "1900": "serial 1 = 1900-01-01, +1 from 1900-03-01 on (day count >= %d)" % want_first})
+
+
+def writer_rewriter_rule(ctx, prog, rid):
+    """ChartXmlWriter and SeriesXmlRewriterFactory dispatch on the chart type; for each type the chart writer class and the
+    rewriter class must build their series XML with the same series-writer class (category / XY / bubble), otherwise
+    replace_data leaves part of the cache (e.g. c:bubbleSize) stale while the workbook is replaced in full."""
+    wm = prog.modules.get("pptx.chart.xmlwriter")
+    fw = next((g for g in prog.all_functions() if g.module is wm and g.name == "ChartXmlWriter"), None)
+    fr = next((g for g in prog.all_functions() if g.module is wm and g.name == "SeriesXmlRewriterFactory"), None)
+    if not (fw and fr):
+        raise AnalysisError("anchor vanished: ChartXmlWriter / SeriesXmlRewriterFactory")
+
+    def table(f):
+        for n in ast.walk(f.node):
+            if isinstance(n, ast.Dict) and len(n.keys) >= 3:
+                t = {}
+                for k, v in zip(n.keys, n.values):
+                    kk = dotted(k)
+                    if kk is None or dotted(v) is None:
+                        return None, None
+                    t[kk.split(".")[-1]] = dotted(v)
+                default = None
+                for c in ast.walk(f.node):
+                    if isinstance(c, ast.Call) and isinstance(c.func, ast.Attribute) and c.func.attr == "get" and c.func.value is n and len(c.args) == 2:
+                        default = dotted(c.args[1])
+                return t, default
+        return None, None
+
+    tw, _ = table(fw)
+    tr, dflt = table(fr)
+    if not tw or tr is None or dflt is None:
+        ctx.error("pptx.chart.xmlwriter", "chart-type dispatch tables not recognised")
+        return
+
+    def series_writers(cname):
+        c = wm.classes.get(cname)
+        out = set()
+        if c is None:
+            return out
+        names = set()
+        for k in prog.mro(c):
+            names |= set(getattr(k, "methods", {}))
+        for nm in names:
+            m = prog.lookup(c, nm)  # the effective (most derived) definition only
+            if m is None:
+                continue
+            for n in ast.walk(m.node):
+                if isinstance(n, ast.Call) and isinstance(n.func, ast.Name) and n.func.id.endswith("SeriesXmlWriter"):
+                    out.add(n.func.id)
+        return out
+
+    n = 0
+    for ct, wcls in sorted(tw.items()):
+        rcls = tr.get(ct, dflt)
+        a, b = series_writers(wcls), series_writers(rcls)
+        key = "chart-type %s" % ct
+        n += 1
+        if a and a == b:
+            ctx.ok(rid, key, nontrivial=(ct in tr), sample={"chart_type": ct, "writer": wcls, "rewriter": rcls, "series_writer": sorted(a)} if ct in tr else None)
+        else:
+            ctx.violation(rid, key, "add_chart builds the series of %s with %s (%s) but replace_data rewrites them with %s (%s): the elements only the "
+                          "former writes keep their old references and cached points while the workbook is replaced" % (
+                              ct, sorted(a), wcls, sorted(b), rcls), file=fr.file, line=fr.line)
+    for ct in sorted(set(tr) - set(tw)):
+        ctx.violation(rid, "chart-type %s" % ct, "rewriter table lists %s, which the chart writer table does not know" % ct, file=fr.file, line=fr.line)
+    ctx.count("chart_types", n)
 
 
 def run(ctx):
@@ -588,3 +671,73 @@ def run(ctx):
     # -- R8.4 ----------------------------------------------------------------------------------------------
     ctx.rule("R8.4", "date categories: serial numbers follow the 1900 / 1904 date systems of the standard")
     date_system_rule(ctx, prog, "R8.4")
+
+    # -- R8.5 ----------------------------------------------------------------------------------------------
+    ctx.rule("R8.5", "for every chart type, replace_data rewrites the series with the same series writer add_chart used")
+    writer_rewriter_rule(ctx, prog, "R8.5")
+
+    # -- R8.6 ----------------------------------------------------------------------------------------------
+    ctx.rule("R8.6", "the cached date serials and the embedded workbook use the same date system")
+    # add_chart path: templates declare c:date1904 val="0", series writers default to date_1904=False, XlsxWriter defaults to 1900
+    bsw = wm.classes.get("_BaseSeriesXmlWriter")
+    init = bsw.methods.get("__init__") if bsw else None
+    dflt = None
+    if init is not None:
+        a = init.node.args
+        names = [x.arg for x in a.args]
+        if "date_1904" in names and a.defaults:
+            dflt = prog.const(a.defaults[-1], init.module)
+    wbcalls = [c for f_ in prog.all_functions() if f_.module is xm for c in ast.walk(f_.node) if isinstance(c, ast.Call) and dotted(c.func) == "Workbook"]
+    opts = set()
+    for c in wbcalls:
+        for a_ in c.args[1:]:
+            if isinstance(a_, ast.Dict):
+                opts |= {prog.const(k, xm) for k in a_.keys}
+    if dflt is False and wbcalls:
+        ctx.ok("R8.6", "add_chart:date-system", sample={"series_writer_default": "date_1904=False", "workbook": "XlsxWriter default (1900)",
+                                                        "templates": 'c:date1904 val="0"'})
+    else:
+        ctx.violation("R8.6", "add_chart:date-system", "new charts do not default to the 1900 date system on both sides (series writer default %r)" % dflt,
+                      file=wm.relpath, line=init.line if init else 1)
+    # replace_data path: the rewriter reads the chart's own flag; the workbook must be written in that system too
+    rr = wm.classes.get("_BaseSeriesXmlRewriter")
+    rsd = rr.methods.get("replace_series_data") if rr else None
+    reads_flag = rsd is not None and any(isinstance(n, ast.Attribute) and n.attr == "date_1904" for n in ast.walk(rsd.node))
+    if reads_flag and "date_1904" not in opts:
+        ctx.violation("R8.6", "replace_data:date1904", "replace_data computes cached date categories in the chart's date system (chartSpace.date_1904) but "
+                      "the replacement workbook is always written in the 1900 system (Workbook options %s): on a chart with c:date1904 = 1 every "
+                      "cached date differs from its cell by 1462" % sorted(o for o in opts if o), file=rsd.file, line=rsd.line,
+                      witness="chart with <c:date1904 val=\"1\"/>, replace_data with categories [2017-01-01]: cache 41274.0, cell A2 42736")
+    elif reads_flag:
+        ctx.ok("R8.6", "replace_data:date1904", sample={"workbook_options": sorted(o for o in opts if o)})
+    else:
+        ctx.ok("R8.6", "replace_data:date1904", sample={"rewriter": "does not depend on the chart's date-system flag"})
+
+    # -- R8.7 ----------------------------------------------------------------------------------------------
+    ctx.rule("R8.7", "a date category label reaches the cache and the worksheet cell through the same reduction")
+    cat = dm.classes.get("Category")
+    edn = cat.methods.get("_excel_date_number") if cat else None
+    nsv = cat.methods.get("numeric_str_val") if cat else None
+    if not (edn and nsv):
+        raise AnalysisError("anchor vanished: Category._excel_date_number / numeric_str_val")
+    admits_datetime = any(isinstance(n, ast.Call) and dotted(n.func) == "isinstance" and any(
+        (dotted(e) or "").endswith("datetime.datetime") for e in (n.args[1].elts if isinstance(n.args[1], ast.Tuple) else [n.args[1]]))
+        for n in ast.walk(nsv.node))
+    comps = set()
+    for n in ast.walk(edn.node):
+        if isinstance(n, ast.Attribute) and n.attr in ("year", "month", "day", "hour", "minute", "second", "microsecond") and isinstance(n.value, ast.Name):
+            comps.add(n.attr)
+    uses_whole = any(isinstance(n, ast.BinOp) and isinstance(n.op, ast.Sub) and dotted(n.left) in ("label", "self._label") for n in ast.walk(edn.node))
+    cache_drops_time = admits_datetime and not uses_whole and comps and not (comps & {"hour", "minute", "second"})
+    # worksheet side: does the category write reduce the label?
+    cwc = xm.classes["CategoryWorkbookWriter"].methods.get("_write_cat_column")
+    cell_reduced = False
+    for n in ast.walk(cwc.node) if cwc else []:
+        if isinstance(n, ast.Call) and dotted(n.func) == "worksheet.write" and len(n.args) >= 3:
+            cell_reduced = not isinstance(n.args[2], ast.Name)
+    if cache_drops_time and not cell_reduced:
+        ctx.violation("R8.7", "datetime-label:time-part", "a datetime category label is reduced to its date (%s) for the cached value but written "
+                      "unreduced into the worksheet: for a label with a time of day the cached point and the cell differ by the day fraction" % sorted(comps),
+                      file=edn.file, line=edn.line, witness="categories [datetime(2016,12,27,18,0)]: cache 42731.0, cell A2 42731.75")
+    else:
+        ctx.ok("R8.7", "datetime-label:time-part", sample={"cache_from": sorted(comps) or "whole label", "cell": "reduced" if cell_reduced else "label as given"})
